@@ -3,36 +3,34 @@ namespace DriverC01
 open Proto Framing DriverFraming
 
 /-- C01 verdict.  enc: the concatenated data is exactly the spec framing of the source's
-messages, no chunk is empty, every chunk consists of whole frames.  dec (valid stream cut
+messages, no chunk is empty, every chunk consists of whole frames and obeys the batching
+contract (`batchingOk`; exact chunk boundaries are not otherwise compared).  dec (valid stream cut
 anywhere): exactly the original messages in order, then a clean end. -/
 def handle (case obs : List String) : String × String :=
-  match model case with
+  match parseCase case with
   | none => bad
-  | some m =>
-    let v := match case with
-      | "penc" :: _ | "enc" :: _ =>
-        match parseEncCase case with
-        | none => "fail:bad-case"
-        | some c =>
-          let flag : UInt8 := if c.cfg.comp.isSome then 1 else 0
-          let expected := Spec.Framing.frames ((itemsOf c.evs).map (fun it =>
-            (flag, if c.cfg.comp.isSome then (tableCodec c.tab).cz .gzip it else it)))
-          let ds := obsData obs
-          verdict [("no-panic", !obs.any isBad),
-                   ("bytes-are-spec-framing-of-messages", ds.flatten == expected),
-                   ("no-empty-chunk", ds.all (fun d => !d.isEmpty)),
-                   ("chunks-are-whole-frames", ds.all (fun d => (Spec.Framing.split d).2.isEmpty))]
-      | "pdec" :: _ | "dec" :: _ =>
-        match parseDecCase case with
-        | none => "fail:bad-case"
-        | some c =>
-          let (frs, left) := Spec.Framing.split (grpcData c)
-          let msgs := frs.filterMap (payloadMsg c.tab)
-          let rest := (obs.filter (fun t => t ≠ "p" && tokKind t ≠ 'a')).drop msgs.length
-          verdict [("no-panic", !obs.any isBad),
-                   ("case-is-valid-stream", left.isEmpty && msgs.length == frs.length),
-                   ("messages-in-order", obsMsgs obs == msgs),
-                   ("then-clean-end", !rest.isEmpty && rest.all (fun t => t = "n"))]
-      | _ => "fail:bad-case"
-    (m, v)
+  | some (.enc c) =>
+    let flag : UInt8 := if c.cfg.comp.isSome then 1 else 0
+    -- the frames `Spec.Framing.frames` concatenates: flag, 4-byte big-endian length, payload, per message
+    let expected : List (UInt8 × Bytes) := (itemsOf c.evs).map (fun it =>
+      (flag, if c.cfg.comp.isSome then (tableCodec c.tab).cz .gzip it else it))
+    let sp := splitChunks obs
+    let ds := sp.map (·.1)
+    (encColumn c obs,
+     verdict [("no-panic", !obs.any isBad), ("no-lost-wakeup", noLostWakeup obs),
+              ("bytes-are-spec-framing-of-messages", eqFrames ds expected),
+              ("no-empty-chunk", ds.all (fun d => !d.isEmpty)),
+              ("chunks-are-whole-frames", sp.all (fun d => d.2.2.isEmpty)),
+              ("batching-contract", batchingOkSplit c sp)])
+  | some (.dec c) =>
+    let (frs, left) := Spec.Framing.split (grpcData c)
+    -- each frame's payload (decompressed by the reference decompressor) read by the case's message
+    -- decoder: the raw bytes, or for the prost codec the message prost itself decodes from them
+    let msgs := (frs.filterMap (payloadMsg c.tab)).filterMap (recvOfCase c).de
+    let rest := (obs.filter (fun t => t ≠ "p" && tokKind t ≠ 'a')).drop msgs.length
+    (runDec c,
+     verdict [("no-panic", !obs.any isBad), ("no-lost-wakeup", noLostWakeup obs),
+              ("case-is-valid-stream", left.isEmpty && msgs.length == frs.length),
+              ("messages-in-order", obsMsgs obs == msgs),
+              ("then-clean-end", !rest.isEmpty && rest.all (fun t => t = "n"))])
 end DriverC01
